@@ -48,6 +48,7 @@ impl StorageData for Faulty {
     fn new(n: &str) -> Result<Self, DbError> { Ok(Faulty { inner: FileStorage::new(n)? }) }
     fn read(&'_ self, p: u64, l: u64) -> Result<StorageSlice<'_>, DbError> { self.inner.read(p, l) }
     fn rename(&mut self, n: &str) -> Result<(), DbError> { self.inner.rename(n) }
+    fn rollback(&mut self) -> Result<bool, DbError> { self.inner.rollback() }
     fn resize(&mut self, l: u64) -> Result<(), DbError> { tick("resize")?; self.inner.resize(l) }
     fn write(&mut self, p: u64, b: &[u8]) -> Result<(), DbError> { tick("write")?; self.inner.write(p, b) }
 }
